@@ -197,9 +197,11 @@ class Runnable(ABC):  # pylint: disable=too-many-instance-attributes
         """
         Stop the service, allowing any do() to complete first.
         """
+        # the shutdown flag must be visible before the loop is told to stop: run()'s finally block reads it
+        # to decide whether to call done(), and a loop that exits right after wake() would otherwise skip cleanup
+        self.__shutdown = forever
         self.__stopping = True
         self.wake()
-        self.__shutdown = forever
         thread = self.__thread  # otherwise race condition -- self.__thread can change value in another thread
         if thread:
             if threading.current_thread() != thread:
